@@ -92,6 +92,7 @@ def generate(rng):
     scn['how'] = rng.choice(['split_write', 'split_write', 'torn_read', 'maxread'])
     if tr == 'fd' and rng.random() < 0.25:
         scn['how'] = 'growing_file'
+    scn['twin'] = rng.random() < 0.2
     scn['maxread'] = rng.choice([1, 2, 3, 2000]) if scn['how'] == 'maxread' else 2000
     if tr in ('fd', 'pty'):
         scn['use_poll'] = rng.random() < 0.3
@@ -196,6 +197,25 @@ def run(scn):
             setattr(child, name, logs[name])
         out = []
         st = child.string_type
+        if scn.get('twin') and enc is not None:
+            # a second object with the same encoding and error policy is alive next to the one under test and has just read a
+            # chunk that ends inside a multi-byte character: decoder state belongs to ONE stream
+            try:
+                head = u'\xe9\u20ac'.encode(enc)[:-1]
+            except UnicodeError:
+                head = b''
+            if head:
+                from . import transports as T_
+                tr_, tw_ = r.k.pipe(4096)
+                tw_.write_now(head)
+                twin = T_.SimFdSpawn(r.k.alloc_fd(tr_), timeout=0.001, encoding=enc, codec_errors=errors)
+                try:
+                    twin.expect([TIMEOUT], timeout=0)
+                except Exception as e:
+                    if isinstance(e, (HarnessError, SimHang)):
+                        raise
+                r.twin = twin
+                r.w.probe('second_object_holds_a_partial_character')
         got = st()
         drain = scn.get('drain', 'read')
         loop = None
